@@ -7,6 +7,8 @@ package detection
 //@ pred wfSig(s Signature) = finite(s.EntropyScore) && !isNaN(s.EntropyTolerance) && s.EntropyTolerance >= 0
 //@ pred wfTopo(t *topology.FunctionTopology) = t != nil && finite(t.EntropyScore)
 
+//@ pred allOccur(t *topology.FunctionTopology, s Signature) = forall j in 0..len(s.IdentifyingFeatures.RequiredCalls) :: occurs(t, s.IdentifyingFeatures.RequiredCalls[j])
+
 //@ func GenerateTopologyHash
 //@   trusted
 
@@ -33,6 +35,7 @@ package detection
 //@ func MatchSignature
 //@   requires wfTopo(topo) && wfSig(sig) && !isNaN(entropyTolerance) && entropyTolerance >= 0
 //@   ensures [C08.range] unit(result.Confidence)
-//@   ensures [C08.veto] (exists j in 0..len(sig.IdentifyingFeatures.RequiredCalls) :: !occurs(topo, sig.IdentifyingFeatures.RequiredCalls[j])) ==> result.Confidence == 0.0
+//@   ensures [C08.veto] !allOccur(topo, sig) ==> result.Confidence == 0.0
+//@   ensures [C08.id] result.SignatureID == sig.ID && result.SignatureName == sig.Name && result.MatchedFunction == funcName
 //@   loop 1 invariant 0 <= #i && #i <= len(scores) && finite(total) && 0 <= total && total <= #i
 //@   loop 1 invariant forall j in 0..len(scores) :: unit(scores[j])
